@@ -39,8 +39,12 @@ def load_lock():
 ORACLE_ERRORS = []     # crashes of the harness itself (not of a case): never turned into a verdict about the code
 
 
-def run_oracle(prop, repo_root, request, timeout=600):
+def run_oracle(prop, repo_root, request, timeout=None):
 	"""Run the executable-spec harness of a property in the repository's interpreter."""
+	if timeout is None:
+		# a safety net against a hung harness, not a budget: the thorough sequences are ~10x the quick ones and must not
+		# be cut off when all cores are busy
+		timeout = 7200 if request.get('tier') == 'thorough' else 1800
 	env = dict(os.environ)
 	env['PYTHONPATH'] = f'{repo_root}/src:{VERIF}'
 	env.setdefault('OMP_NUM_THREADS', '4')
